@@ -541,6 +541,77 @@ func (env *CEnv) evalCall(x *ast.CallExpr) (Value, types.Type) {
 			kv, _ := env.eval(x.Args[0])
 			vis := c.heapGet(env.s, fmt.Sprintf("L.visited%d", c.curLoop), sA1)
 			return BoolV{eq(sel(vis, c.keyTerm(kv)), "1")}, tBool
+		case "ref":
+			// ref(x.f): identity of the struct-valued field f embedded in the heap object x (e.g. a sync.Once); ref(p) = p
+			if se, ok := x.Args[0].(*ast.SelectorExpr); ok {
+				bv, bt := env.eval(se.X)
+				obj, idx, _ := types.LookupFieldOrMethod(bt, true, c.pkgOfType(bt), se.Sel.Name)
+				if f, ok := obj.(*types.Var); ok && c.isStructByValueField(f) {
+					saved := c.checkPanics
+					c.checkPanics = false
+					href, hst, _ := c.walkPath(env.s, bv, bt, idx[:len(idx)-1], nil)
+					c.checkPanics = saved
+					if href != "" {
+						return IntV{c.subObject(env.s, href, hst, f)}, types.NewPointer(f.Type())
+					}
+				}
+			}
+			if id, ok := x.Args[0].(*ast.Ident); ok && env.own {
+				if lv := c.lookupLocal(id.Name, env.pos); lv != nil && c.boxed(lv) {
+					if bv, ok := env.s.vars[lv]; ok {
+						return IntV{asInt(bv)}, types.NewPointer(lv.Type())
+					}
+				}
+			}
+			v, t := env.eval(x.Args[0])
+			return IntV{asInt(v)}, t
+		case "total":
+			// total(bufs): number of payload bytes held by a slice of byte slices (uninterpreted function of the slice value;
+			// the lengths of the inner slices are taken to be immutable)
+			v, _ := env.eval(x.Args[0])
+			sv, ok := v.(SliceV)
+			if !ok {
+				cfail("total: needs a slice of byte slices")
+			}
+			c.declareFun("buftotal", 3, sInt)
+			t := app("buftotal", sv.Ref, sv.Off, sv.Len)
+			env.s.assume(le("0", t))
+			if c.inQuant == 0 {
+				env.s.assume(implies(eq(sv.Len, "0"), eq(t, "0")))
+				// a single buffer: its own length (definitional unfolding of the sum for one element)
+				lenMem := c.heapGet(env.s, "M.[]byte#len", sA2)
+				env.s.assume(implies(eq(sv.Len, "1"), eq(t, sel(sel(lenMem, sv.Ref), c.elemIndex(sv.Off, "0")))))
+			}
+			return IntV{t}, tInt
+		case "fresh":
+			// fresh(x): x was allocated by the function (in a callee's ensures: the caller may treat it as its own allocation)
+			v, _ := env.eval(x.Args[0])
+			ref := ""
+			switch xv := v.(type) {
+			case SliceV:
+				ref = xv.Ref
+			case IntV:
+				ref = xv.T
+			default:
+				cfail("fresh: needs a reference or slice")
+			}
+			if env.own {
+				// obligation side: syntactic check that the value comes from an allocation of this function
+				if c.freshRefs[ref] {
+					return BoolV{"true"}, tBool
+				}
+				return BoolV{"false"}, tBool
+			}
+			c.freshRefs[ref] = true
+			c.nfresh++
+			c.allocSeq[ref] = c.nfresh
+			al := c.heapGet(env.s, "X.alloc", sA1)
+			pre := al
+			if env.old != nil {
+				pre = c.heapGet(env.old, "X.alloc", sA1)
+			}
+			c.heapSetQuiet(env.s, "X.alloc", sA1, store(al, ref, "1"))
+			return BoolV{and(lt("0", ref), eq(sel(pre, ref), "0"))}, tBool
 		case "allocated":
 			v, _ := env.eval(x.Args[0])
 			ref := ""
@@ -704,7 +775,7 @@ func (env *CEnv) seqEq(a, b Value, at types.Type) string {
 	defer func() { c.inQuant-- }()
 	for _, l := range leaves(elem) {
 		m := c.heapGet(env.s, memKey(elem)+l, sA2)
-		conj = append(conj, forall([]string{k}, implies(and(le("0", k), lt(k, as.Len)), eq(sel(sel(m, as.Ref), add(as.Off, k)), sel(sel(m, bs.Ref), add(bs.Off, k))))))
+		conj = append(conj, forall([]string{k}, implies(and(le("0", k), lt(k, as.Len)), eq(sel(sel(m, as.Ref), c.elemIndex(as.Off, k)), sel(sel(m, bs.Ref), c.elemIndex(bs.Off, k))))))
 	}
 	return and(conj...)
 }
